@@ -35,3 +35,25 @@ Fixpoint drive (fuel : nat) (s : state) : list label :=
 
 Definition run_to_quiet (fuel : nat) (s : state) : state :=
   match run s (drive fuel s) with Some s' => s' | None => s end.
+
+(** the same scheduler, never scheduling task [skip] (an unfair scheduler that starves one goroutine) *)
+Fixpoint first_enabled_skip (skip : nat) (s : state) (ts : list (nat * list frame)) : option label :=
+  match ts with
+  | [] => None
+  | (tid, st) :: t =>
+      if Nat.eqb tid skip then first_enabled_skip skip s t
+      else match step s (LTask tid (default_arg st)) with
+           | Some _ => Some (LTask tid (default_arg st))
+           | None => first_enabled_skip skip s t
+           end
+  end.
+
+Fixpoint drive_skip (fuel skip : nat) (s : state) : list label :=
+  match fuel with
+  | 0 => []
+  | S k =>
+      match first_enabled_skip skip s (s_tasks s) with
+      | None => []
+      | Some l => match step s l with Some s' => l :: drive_skip k skip s' | None => [] end
+      end
+  end.
